@@ -307,6 +307,8 @@ pub struct World {
     pub pool_manager: Addr,
     pub farm_manager: Addr,
     pub epoch_manager: Addr,
+    /// the account that instantiated the epoch manager and the farm manager (their owner is named in the message)
+    pub deployer: Addr,
     pub tf_fee: Vec<Coin>,
 }
 
@@ -403,10 +405,13 @@ impl World {
         b.height = 1;
         app.set_block(b);
         let owner = users[0].clone();
+        // the epoch manager and the farm manager name their owner in the instantiate message: they are deployed by a
+        // separate account (which must end up with no rights), the other two take the instantiating account as owner
+        let deployer = app.api().addr_make("deployer");
         let epoch_manager = app
             .instantiate_contract(
                 1,
-                owner.clone(),
+                deployer.clone(),
                 &mantra_dex_std::epoch_manager::InstantiateMsg {
                     owner: owner.to_string(),
                     epoch_config: EpochConfig {
@@ -425,7 +430,7 @@ impl World {
         let farm_manager = app
             .instantiate_contract(
                 3,
-                owner.clone(),
+                deployer.clone(),
                 &mantra_dex_std::farm_manager::InstantiateMsg {
                     owner: owner.to_string(),
                     epoch_manager_addr: epoch_manager.to_string(),
@@ -476,7 +481,7 @@ impl World {
             &[],
         )
         .unwrap();
-        World { app, plan, users, fee_collector, pool_manager, farm_manager, epoch_manager, tf_fee: cfg.tf_fee.clone() }
+        World { app, plan, users, fee_collector, pool_manager, farm_manager, epoch_manager, deployer, tf_fee: cfg.tf_fee.clone() }
     }
 
     /// address of the pool manager (deterministic: fourth contract instantiated)
